@@ -113,7 +113,7 @@ type ExecutionContext struct {
 // other, got twice the depth; a macro including templates that call it again got a fresh
 // template depth in every activation. All of it is on one stack.
 type executionNesting struct {
-	calls     int // macro calls and block.Super calls being executed (maxMacroDepth, maxSuperDepth)
+	calls     int // macro calls, blocks and block.Super calls being executed (maxMacroDepth, maxSuperDepth)
 	templates int // templates being executed by include/ssi (maxTemplateDepth)
 }
 
